@@ -45,6 +45,11 @@ TECHNIQUE = "static analysis: MIR call-graph reachability + panic-site inventory
 
 
 def run(ctx):
+    _run_main7(ctx)
+    _round7(ctx)
+
+
+def _run_main7(ctx):
     panics.inventory(ctx, 'R07.1', 'every panic-capable site reachable from the I/O thread is discharged', floor_sites=35, floor_funcs=150)
     r072(ctx)
     r073(ctx)
@@ -227,3 +232,11 @@ def r076(ctx):
         st = [e for e in events if e.kind == 'struct' and e.term[1].endswith('connection::Close')]
         r.check('reply-text:truncate-before-use', len(tr) == 1 and len(st) == 1 and tr[0].idx < st[0].idx and S.show(tr[0].args[0]) == S.show(dict(st[0].term[2])['reply_text']),
                 ctx.site(fnp), built=[S.show(e.term) for e in tr], expected='truncate(reply_text, ..) precedes Close{reply_text}')
+
+
+def _round7(ctx):
+    """Found by seeding round 7 (minimal one-line mutations)."""
+    from rules import arms as A
+    with ctx.rule('R07.10', "the Close carrying the hard-error code is written before the loop ends, and a cancelled consumer's tag is unknown afterwards (shared with C08, C11)", floor=6) as r:
+        A.include(ctx, r, 'c08', 'R08.5', pick=('done:',))
+        A.include(ctx, r, 'c11', 'R11.2', pick=('basic::Cancel',))
